@@ -59,6 +59,7 @@ func (in *Interp) runConc(h *Hist, st *Step) {
 	// lock picture kept by the scheduler itself
 	writer := map[string]string{}          // lock id -> goroutine holding it exclusively
 	readers := map[string]map[string]int{} // lock id -> goroutines holding it shared (with multiplicity)
+	pend := map[string]map[string]bool{}   // lock id -> goroutines that announced Lock and wait
 	norm := map[string]string{}            // lock ids renumbered in order of first use within this run
 	enabled := func() []string {
 		var out []string
@@ -73,7 +74,7 @@ func (in *Interp) runConc(h *Hist, st *Step) {
 					continue
 				}
 			case "RLock":
-				if writer[op.Arg] != "" {
+				if writer[op.Arg] != "" || len(pend[op.Arg]) > 0 {
 					continue
 				}
 			}
@@ -92,8 +93,14 @@ func (in *Interp) runConc(h *Hist, st *Step) {
 	step := func(g string, en []string) bool {
 		op, _, _ := s.Pending(g)
 		switch op.Kind {
+		case "LockReq":
+			if pend[op.Arg] == nil {
+				pend[op.Arg] = map[string]bool{}
+			}
+			pend[op.Arg][g] = true
 		case "Lock":
 			writer[op.Arg] = g
+			delete(pend[op.Arg], g)
 		case "Unlock":
 			delete(writer, op.Arg)
 		case "RLock":
@@ -108,7 +115,7 @@ func (in *Interp) runConc(h *Hist, st *Step) {
 		}
 		kind := op.Kind
 		switch kind {
-		case "Lock", "Unlock", "RLock", "RUnlock", "TryLock", "TryRLock":
+		case "Lock", "LockReq", "Unlock", "RLock", "RUnlock", "TryLock", "TryRLock":
 			if _, ok := norm[op.Arg]; !ok {
 				norm[op.Arg] = "rw" + strconv.Itoa(len(norm)+1)
 			}
